@@ -12,26 +12,41 @@
 #include <sched.h>
 #include <pthread.h>
 
-// shared constant objects
-static ascon128a_isap_aead_key_t g_isap;
+// shared constant objects: pre-computed ISAP keys, masked keys, constant inputs
+static ascon128a_isap_aead_key_t g_isap_a;
+static ascon128_isap_aead_key_t g_isap_b;
+static ascon80pq_isap_aead_key_t g_isap_c;
 static ascon_masked_key_128_t g_mkey;
+static ascon_masked_key_160_t g_mkey160;
 static Bytes g_const_ad, g_const_pt, g_const_nonce;
 
+static Bytes shared_snapshot() {
+    Bytes b;
+    auto add = [&](const void *p, size_t n) { b.insert(b.end(), (const uint8_t *)p, (const uint8_t *)p + n); };
+    add(&g_isap_a, sizeof g_isap_a); add(&g_isap_b, sizeof g_isap_b); add(&g_isap_c, sizeof g_isap_c); add(&g_mkey, sizeof g_mkey); add(&g_mkey160, sizeof g_mkey160);
+    return b;
+}
+
 static uint64_t shared_call(uint32_t r) {
-    // read-only use of the shared objects; outputs are deterministic (masking randomness does not show)
+    // read-only use of the shared objects (encrypt, decrypt good, decrypt forged); outputs are deterministic
+    // (masking randomness does not show in the results)
     Digest d;
     size_t n = r % (g_const_pt.size() + 1);
-    Buf c(n + 16), c2(n + 16);
-    size_t clen = 0;
-    ascon128a_isap_aead_encrypt(c.p, &clen, g_const_pt.data(), n, g_const_ad.data(), g_const_ad.size(), g_const_nonce.data(), &g_isap);
-    d.add("isap", c.bytes());
-    ascon128_masked_aead_encrypt(c2.p, &clen, g_const_pt.data(), n, g_const_ad.data(), g_const_ad.size(), g_const_nonce.data(), &g_mkey);
-    d.add("masked", c2.bytes());
-    Buf m(n);
-    size_t mlen = 0;
-    d.addi("dec", ascon128a_isap_aead_decrypt(m.nn(), &mlen, c.p, c.n, g_const_ad.data(), g_const_ad.size(), g_const_nonce.data(), &g_isap));
-    Buf key(16);
+    const uint8_t *pt = g_const_pt.data(), *ad = g_const_ad.data(), *nonce = g_const_nonce.data();
+    size_t adn = g_const_ad.size();
+    size_t clen = 0, mlen = 0;
+    Buf c(n + 16), m(n);
+    switch (r % 6) {
+    case 0: ascon128a_isap_aead_encrypt(c.p, &clen, pt, n, ad, adn, nonce, &g_isap_a); d.add("ct", c.bytes()); d.addi("dec", ascon128a_isap_aead_decrypt(m.nn(), &mlen, c.p, c.n, ad, adn, nonce, &g_isap_a)); c.p[r % c.n] ^= 1; d.addi("bad", ascon128a_isap_aead_decrypt(m.nn(), &mlen, c.p, c.n, ad, adn, nonce, &g_isap_a)); break;
+    case 1: ascon128_isap_aead_encrypt(c.p, &clen, pt, n, ad, adn, nonce, &g_isap_b); d.add("ct", c.bytes()); d.addi("dec", ascon128_isap_aead_decrypt(m.nn(), &mlen, c.p, c.n, ad, adn, nonce, &g_isap_b)); c.p[r % c.n] ^= 1; d.addi("bad", ascon128_isap_aead_decrypt(m.nn(), &mlen, c.p, c.n, ad, adn, nonce, &g_isap_b)); break;
+    case 2: ascon80pq_isap_aead_encrypt(c.p, &clen, pt, n, ad, adn, nonce, &g_isap_c); d.add("ct", c.bytes()); d.addi("dec", ascon80pq_isap_aead_decrypt(m.nn(), &mlen, c.p, c.n, ad, adn, nonce, &g_isap_c)); c.p[r % c.n] ^= 1; d.addi("bad", ascon80pq_isap_aead_decrypt(m.nn(), &mlen, c.p, c.n, ad, adn, nonce, &g_isap_c)); break;
+    case 3: ascon128_masked_aead_encrypt(c.p, &clen, pt, n, ad, adn, nonce, &g_mkey); d.add("ct", c.bytes()); d.addi("dec", ascon128_masked_aead_decrypt(m.nn(), &mlen, c.p, c.n, ad, adn, nonce, &g_mkey)); c.p[r % c.n] ^= 1; d.addi("bad", ascon128_masked_aead_decrypt(m.nn(), &mlen, c.p, c.n, ad, adn, nonce, &g_mkey)); break;
+    case 4: ascon128a_masked_aead_encrypt(c.p, &clen, pt, n, ad, adn, nonce, &g_mkey); d.add("ct", c.bytes()); d.addi("dec", ascon128a_masked_aead_decrypt(m.nn(), &mlen, c.p, c.n, ad, adn, nonce, &g_mkey)); c.p[r % c.n] ^= 1; d.addi("bad", ascon128a_masked_aead_decrypt(m.nn(), &mlen, c.p, c.n, ad, adn, nonce, &g_mkey)); break;
+    default: ascon80pq_masked_aead_encrypt(c.p, &clen, pt, n, ad, adn, nonce, &g_mkey160); d.add("ct", c.bytes()); d.addi("dec", ascon80pq_masked_aead_decrypt(m.nn(), &mlen, c.p, c.n, ad, adn, nonce, &g_mkey160)); c.p[r % c.n] ^= 1; d.addi("bad", ascon80pq_masked_aead_decrypt(m.nn(), &mlen, c.p, c.n, ad, adn, nonce, &g_mkey160)); break;
+    }
+    Buf key(20);
     ascon_masked_key_128_extract(&g_mkey, key.p);
+    ascon_masked_key_160_extract(&g_mkey160, key.p);
     d.add("key", key.bytes());
     return d.h;
 }
@@ -62,12 +77,14 @@ static std::string check_round(const KV &c) {
     std::vector<std::vector<KV>> calls(T);
     for (int t = 0; t < T; ++t) for (int j = 0; j < n; ++j) calls[t].push_back(derive_call(seed, same ? 0 : t, j));
     // sequential reference
+    Bytes snap = shared_snapshot();
     std::vector<std::vector<uint64_t>> want(T), got(T);
     for (int t = 0; t < T; ++t) for (int j = 0; j < n; ++j) {
         bool rnd = tonum(calls[t][j], "group") == G_RANDOM;
         want[t].push_back(rnd ? 0 : run_call(calls[t][j]));
-        want[t].push_back(shared_call((uint32_t)(seed + j)));
+        want[t].push_back(shared_call((uint32_t)(seed + j + t)));
     }
+    if (shared_snapshot() != snap) return "a shared CONST object (pre-computed ISAP key / masked key) was modified by read-only use (sequential run)";
     pthread_barrier_t bar;
     pthread_barrier_init(&bar, nullptr, (unsigned)T);
     std::vector<std::thread> th;
@@ -79,7 +96,7 @@ static std::string check_round(const KV &c) {
                 bool rnd = tonum(calls[t][j], "group") == G_RANDOM;
                 uint64_t h = run_call(calls[t][j]);
                 got[t].push_back(rnd ? 0 : h);
-                got[t].push_back(shared_call((uint32_t)(seed + j)));
+                got[t].push_back(shared_call((uint32_t)(seed + j + t)));
             }
         });
     }
@@ -94,8 +111,13 @@ int main(int argc, char **argv) {
     g_use_tape = false;
     Bytes key(16);
     for (int i = 0; i < 16; ++i) key[i] = (uint8_t)(i * 7 + 1);
-    ascon128a_isap_aead_init(&g_isap, key.data());
+    Bytes key20(20);
+    for (int i = 0; i < 20; ++i) key20[i] = (uint8_t)(i * 11 + 3);
+    ascon128a_isap_aead_init(&g_isap_a, key.data());
+    ascon128_isap_aead_init(&g_isap_b, key.data());
+    ascon80pq_isap_aead_init(&g_isap_c, key20.data());
     ascon_masked_key_128_init(&g_mkey, key.data());
+    ascon_masked_key_160_init(&g_mkey160, key20.data());
     g_const_ad.assign(23, 0x42); g_const_pt.assign(100, 0x17); g_const_nonce.assign(16, 0x99);
     std::vector<Prop> props = {{"c16_threads", gen_round, check_round, classify_round}};
     return harness_main(argc, argv, props);
